@@ -9,8 +9,8 @@ File formats (from the documented writer abacusnbody/hod/prepare_sim.py and the 
 Every value is a tag of (key of the id, column, component, file variant):
   halo      tag = variant*1024 + K*32 + column_index + comp/4          K = 1 + rank of the id in the id universe
   particle  tag = variant*1024 + PK*32 + column_index + comp/4         PK = 3*(K-1) + j + 1  (j-th particle of halo K)
-  r25_L2com = 2**-K   (so that concentration r98/r25 is exact in float32 and float64)
-All tags are exactly representable in float32.  The plain/_MT and the plain/_withranks files of one slab describe the
+  r25_L2com = 2**-(K+7)   (so that concentration r98/r25 is exact in float32 and float64)
+The stored value is the tag mapped injectively and exactly into the physically valid range of its column (see _phys).  The plain/_MT and the plain/_withranks files of one slab describe the
 same halos/particles but carry a different `variant`, so reading the wrong file is visible in every column.
 """
 import os
@@ -51,6 +51,42 @@ def htag(K, col, comp=0, variant=0):
 
 def ptag(PK, col, comp=0, variant=0):
     return variant * 1024 + PK * 32 + PCI[col] + comp * 0.25
+
+
+# physically valid ranges (a loader may legitimately sanity-check its input): uniform deviates and subsampling
+# fractions in (0,1), rank columns in [-0.5,0.5), coordinates inside the box, r25 < r98 < 1 Mpc/h, counts/masses/
+# multiplicities > 0.  Every map is injective on the tags and exact in float32 (tags have <= 14 significant bits).
+UNIT_COLS = {'randoms', 'downsample_halo', 'r98_L2com'}
+RANK_COLS = {'deltac_rank', 'fenv_rank', 'shear_rank', 'ranks', 'ranksv', 'ranksp', 'ranksr', 'ranksc'}
+POS_COLS = {'x_L2com', 'pos'}
+
+
+def _phys(col, t):
+    if col in UNIT_COLS:
+        return t / 4096.0
+    if col in RANK_COLS:
+        return t / 4096.0 - 0.5
+    if col in POS_COLS:
+        return t / 8.0
+    return t
+
+
+def hval(K, col, comp=0, variant=0):
+    return _phys(col, htag(K, col, comp, variant))
+
+
+def pval(PK, col, comp=0, variant=0):
+    return _phys(col, ptag(PK, col, comp, variant))
+
+
+def r25(K):
+    return 2.0 ** -(K + 7)      # < every r98 value (>= 41/4096); a power of two, so r98/r25 is exact
+
+
+def pk_of_ppos(x, variant):
+    """particle key encoded in the first position component (None if x is no position tag of that file variant)"""
+    v = x * 8.0 - variant * 1024 - PCI['pos']
+    return int(v // 32) if v % 32 == 0 else None
 
 
 def zdir(z):
@@ -128,11 +164,11 @@ class FileSet:
                 if name == 'id':
                     a[name][r] = hid
                 elif name == 'r25_L2com':
-                    a[name][r] = 2.0 ** -K
+                    a[name][r] = r25(K)
                 elif dt[name].shape:
-                    a[name][r] = [htag(K, name, c, variant) for c in range(3)]
+                    a[name][r] = [hval(K, name, c, variant) for c in range(3)]
                 else:
-                    a[name][r] = htag(K, name, 0, variant)
+                    a[name][r] = hval(K, name, 0, variant)
         return a
 
     def part_rows(self, ids):
@@ -152,15 +188,15 @@ class FileSet:
                 if name == 'halo_id':
                     a[name][r] = hid
                 elif name == 'halo_vel':
-                    a[name][r] = [htag(K, 'v_L2com', c, hvariant) for c in range(3)]
+                    a[name][r] = [hval(K, 'v_L2com', c, hvariant) for c in range(3)]
                 elif name == 'halo_mass':
-                    a[name][r] = np.float32(htag(K, 'N', 0, hvariant) * MPART)
+                    a[name][r] = np.float32(hval(K, 'N', 0, hvariant) * MPART)
                 elif name in ('halo_deltac', 'halo_fenv', 'halo_shear'):
-                    a[name][r] = htag(K, name[5:] + '_rank', 0, hvariant)
+                    a[name][r] = hval(K, name[5:] + '_rank', 0, hvariant)
                 elif dt[name].shape:
-                    a[name][r] = [ptag(PK, name, c, variant) for c in range(3)]
+                    a[name][r] = [pval(PK, name, c, variant) for c in range(3)]
                 else:
-                    a[name][r] = ptag(PK, name, 0, variant)
+                    a[name][r] = pval(PK, name, 0, variant)
         return a
 
     def write(self, root, z, particles=True):
@@ -196,17 +232,17 @@ class FileSet:
         ids = sorted(i for s in loaded_slabs for i in self.slabs[s])
 
         def vec(col):
-            return lambda i: [htag(K[i], col, c, hv) for c in range(3)]
+            return lambda i: [hval(K[i], col, c, hv) for c in range(3)]
 
         def sca(col):
-            return lambda i: htag(K[i], col, 0, hv)
+            return lambda i: hval(K[i], col, 0, hv)
         devcol = 'randoms_exp' if want_expvel else 'randoms_gaus_vrms'
         H = dict(hpos=vec('x_L2com'), hvel=vec('v_L2com'),
-                 hmass=lambda i: htag(K[i], 'N', 0, hv) * MPART,
+                 hmass=lambda i: hval(K[i], 'N', 0, hv) * MPART,
                  hmultis=sca('multi_halos'), hrandoms=sca('randoms'),
-                 hveldev=(lambda i: [htag(K[i], devcol, 0, hv)] * 3) if self.vel1d else vec(devcol),
+                 hveldev=(lambda i: [hval(K[i], devcol, 0, hv)] * 3) if self.vel1d else vec(devcol),
                  hsigma3d=sca('sigmav3d_L2com'),
-                 hc=lambda i: htag(K[i], 'r98_L2com', 0, hv) * 2.0 ** K[i],
+                 hc=lambda i: hval(K[i], 'r98_L2com', 0, hv) / r25(K[i]),
                  hrvir=sca('r98_L2com'))
         if want_AB:
             H['hdeltac'] = sca('deltac_rank')
@@ -219,21 +255,21 @@ class FileSet:
             return 3 * (K[r[0]] - 1) + r[1] + 1
 
         def pvec(col):
-            return lambda r: [ptag(PKof(r), col, c, pv) for c in range(3)]
+            return lambda r: [pval(PKof(r), col, c, pv) for c in range(3)]
 
         def psca(col):
-            return lambda r: ptag(PKof(r), col, 0, pv)
+            return lambda r: pval(PKof(r), col, 0, pv)
         P = dict(ppos=pvec('pos'), pvel=pvec('vel'),
-                 phvel=lambda r: [htag(K[r[0]], 'v_L2com', c, hv) for c in range(3)],
-                 phmass=lambda r: float(np.float32(htag(K[r[0]], 'N', 0, hv) * MPART)),
+                 phvel=lambda r: [hval(K[r[0]], 'v_L2com', c, hv) for c in range(3)],
+                 phmass=lambda r: float(np.float32(hval(K[r[0]], 'N', 0, hv) * MPART)),
                  phid=lambda r: r[0],
-                 pweights=lambda r: 1.0 / ptag(PKof(r), 'Np', 0, pv) / ptag(PKof(r), 'downsample_halo', 0, pv),
+                 pweights=lambda r: 1.0 / pval(PKof(r), 'Np', 0, pv) / pval(PKof(r), 'downsample_halo', 0, pv),
                  prandoms=psca('randoms'))
         if want_AB:
-            P['pdeltac'] = lambda r: htag(K[r[0]], 'deltac_rank', 0, hv)
-            P['pfenv'] = lambda r: htag(K[r[0]], 'fenv_rank', 0, hv)
+            P['pdeltac'] = lambda r: hval(K[r[0]], 'deltac_rank', 0, hv)
+            P['pfenv'] = lambda r: hval(K[r[0]], 'fenv_rank', 0, hv)
         if want_shear:
-            P['pshear'] = lambda r: htag(K[r[0]], 'shear_rank', 0, hv)
+            P['pshear'] = lambda r: hval(K[r[0]], 'shear_rank', 0, hv)
         if want_ranks:
             # only the rank columns actually stored are part of the oracle (defaults for absent ones are a convention)
             for out, col in (('pranks', 'ranks'), ('pranksv', 'ranksv'), ('pranksp', 'ranksp'), ('pranksr', 'ranksr'),
